@@ -417,32 +417,41 @@ func (d *Document) AddImageFromFile(filePath string, config *ImageConfig) (*Imag
 	return d.AddImageFromData(imageData, fileName, format, width, height, config)
 }
 
+// imageFormatExtension 返回某种图片格式的媒体部件扩展名（不含点）。
+// 它与 addImageContentType 注册的 Default 扩展名一致；不支持的格式返回 false。
+func imageFormatExtension(format ImageFormat) (string, bool) {
+	switch format {
+	case ImageFormatPNG:
+		return "png", true
+	case ImageFormatJPEG:
+		return "jpeg", true
+	case ImageFormatGIF:
+		return "gif", true
+	}
+	return "", false
+}
+
 // generateSafeImageFileName 生成安全的图片文件名
 // 将非ASCII字符的文件名转换为安全的ASCII文件名，以确保Microsoft Word兼容性
 func generateSafeImageFileName(imageID int, originalFileName string, format ImageFormat) string {
-	// 获取文件扩展名
-	ext := filepath.Ext(originalFileName)
-	if ext == "" {
-		// 如果没有扩展名，根据格式添加
-		switch format {
-		case ImageFormatPNG:
-			ext = ".png"
-		case ImageFormatJPEG:
-			ext = ".jpeg"
-		case ImageFormatGIF:
-			ext = ".gif"
-		default:
-			ext = ".png"
-		}
+	// 扩展名由图片格式决定，而不是取自原始文件名：原始扩展名可能没有注册内容类型
+	// （.jpg、.JPEG、.bmp ...），也可能含有部件名中不允许的字符（空格、? 等）
+	ext, ok := imageFormatExtension(format)
+	if !ok {
+		ext = "png"
 	}
 
 	// 使用图片ID生成安全的文件名
-	safeFileName := fmt.Sprintf("image%d%s", imageID, ext)
+	safeFileName := fmt.Sprintf("image%d.%s", imageID, ext)
 	return safeFileName
 }
 
 // AddImageFromData 从数据添加图片到文档
 func (d *Document) AddImageFromData(imageData []byte, fileName string, format ImageFormat, width, height int, config *ImageConfig) (*ImageInfo, error) {
+	if _, ok := imageFormatExtension(format); !ok {
+		return nil, fmt.Errorf("不支持的图片格式: %q", string(format))
+	}
+
 	if d.documentRelationships == nil {
 		d.documentRelationships = &Relationships{
 			Xmlns:         "http://schemas.openxmlformats.org/package/2006/relationships",
@@ -497,6 +506,10 @@ func (d *Document) AddImageFromData(imageData []byte, fileName string, format Im
 // AddImageFromDataWithoutElement 从数据添加图片到文档但不创建段落元素
 // 此方法供模板引擎等需要自行管理图片段落的场景使用
 func (d *Document) AddImageFromDataWithoutElement(imageData []byte, fileName string, format ImageFormat, width, height int, config *ImageConfig) (*ImageInfo, error) {
+	if _, ok := imageFormatExtension(format); !ok {
+		return nil, fmt.Errorf("不支持的图片格式: %q", string(format))
+	}
+
 	if d.documentRelationships == nil {
 		d.documentRelationships = &Relationships{
 			Xmlns:         "http://schemas.openxmlformats.org/package/2006/relationships",
@@ -972,20 +985,11 @@ func (d *Document) addImageContentType(format ImageFormat) {
 		}
 	}
 
-	var extension, contentType string
-	switch format {
-	case ImageFormatPNG:
-		extension = "png"
-		contentType = "image/png"
-	case ImageFormatJPEG:
-		extension = "jpeg"
-		contentType = "image/jpeg"
-	case ImageFormatGIF:
-		extension = "gif"
-		contentType = "image/gif"
-	default:
+	extension, ok := imageFormatExtension(format)
+	if !ok {
 		return
 	}
+	contentType := "image/" + extension
 
 	// 检查是否已存在相同的默认类型
 	for _, def := range d.contentTypes.Defaults {
